@@ -284,7 +284,7 @@ theorem year_then_mk (v11 neg : Bool) (yd : List Char) (mo dd h mi sec : Nat) (u
     refine ⟨?_, ?_, ?_⟩
     · intro hok hb
       rw [internal_astro y hy0] at hb
-      exact mk_spec y mo dd h mi sec us tz hy0 hb ⟨hok.1.1, hok.1.2.1⟩ ⟨hok.1.2.2.1, hok.1.2.2.2⟩ hok.2
+      exact mk_spec y mo dd h mi sec us tz hy0 (by omega) (fun _ => by omega) ⟨hok.1.1, hok.1.2.1⟩ ⟨hok.1.2.2.1, hok.1.2.2.2⟩ hok.2
     · intro hbad
       exact mk_error y mo dd h mi sec us tz hy0 hbad
     · intro w hw
